@@ -7,6 +7,7 @@ import (
 	"go/constant"
 	"go/token"
 	"go/types"
+	"sort"
 	"strings"
 
 	"golang.org/x/tools/go/packages"
@@ -420,6 +421,51 @@ func indexLoop(info *types.Info, s ast.Stmt) (types.Object, ast.Expr, *ast.Block
 	return nil, nil, nil, false
 }
 
+// indexLoopIn is indexLoop plus `for i := range S {..}` where S is a local of fd defined exactly once as
+// make([]T, N) and never assigned again: the bound is N.
+func indexLoopIn(info *types.Info, fd *ast.FuncDecl, s ast.Stmt) (types.Object, ast.Expr, *ast.BlockStmt, bool) {
+	if iv, bound, body, ok := indexLoop(info, s); ok {
+		return iv, bound, body, true
+	}
+	rs, ok := s.(*ast.RangeStmt)
+	if !ok || rs.Value != nil || rs.Key == nil {
+		return nil, nil, nil, false
+	}
+	key, ok := rs.Key.(*ast.Ident)
+	sid, ok2 := ast.Unparen(rs.X).(*ast.Ident)
+	if !ok || !ok2 || info.Defs[key] == nil {
+		return nil, nil, nil, false
+	}
+	obj := info.Uses[sid]
+	var bound ast.Expr
+	nDef := 0
+	ast.Inspect(fd.Body, func(n ast.Node) bool {
+		as, ok := n.(*ast.AssignStmt)
+		if !ok {
+			return true
+		}
+		for i, l := range as.Lhs {
+			id, ok := l.(*ast.Ident)
+			if !ok || objOf(info, id) != obj {
+				continue
+			}
+			nDef++
+			if len(as.Lhs) == len(as.Rhs) {
+				if call, ok := ast.Unparen(as.Rhs[i]).(*ast.CallExpr); ok && len(call.Args) == 2 {
+					if b, ok := call.Fun.(*ast.Ident); ok && b.Name == "make" && info.Uses[b] == types.Universe.Lookup("make") {
+						bound = call.Args[1]
+					}
+				}
+			}
+		}
+		return true
+	})
+	if nDef != 1 || bound == nil {
+		return nil, nil, nil, false
+	}
+	return info.Defs[key], bound, rs.Body, true
+}
+
 // pkgFuncs maps the package's function objects to their declarations.
 func pkgFuncs(p *packages.Package) map[*types.Func]*ast.FuncDecl {
 	out := map[*types.Func]*ast.FuncDecl{}
@@ -594,8 +640,9 @@ func ownerChain(p *packages.Package, fd *ast.FuncDecl) []string {
 		}
 		var caller *ast.FuncDecl
 		single := true
+		var callers []*ast.FuncDecl
 		for _, g := range funcs {
-			if g == cur {
+			if g == cur || g.Body == nil {
 				continue
 			}
 			ast.Inspect(g.Body, func(n ast.Node) bool {
@@ -605,25 +652,59 @@ func ownerChain(p *packages.Package, fd *ast.FuncDecl) []string {
 				}
 				if caller == nil {
 					caller = g
+					callers = append(callers, g)
 				} else if caller != g {
 					single = false
+					if callers[len(callers)-1] != g {
+						callers = append(callers, g)
+					}
 				}
 				return true
 			})
 		}
+		sort.Slice(callers, func(i, j int) bool { return callers[i].Pos() < callers[j].Pos() })
+		genDeclRef := false
 		for _, f := range p.Syntax {
 			for _, d := range f.Decls {
 				if gd, ok := d.(*ast.GenDecl); ok {
 					ast.Inspect(gd, func(n ast.Node) bool {
 						if id, ok := n.(*ast.Ident); ok && p.TypesInfo.Uses[id] == fn {
-							single = false
+							genDeclRef = true
 						}
 						return true
 					})
 				}
 			}
 		}
-		if !single || caller == nil {
+		if caller == nil || (!single && genDeclRef) {
+			break
+		}
+		if !single {
+			// several callers that are all private helpers of one function: that function (and its
+			// owners) own this one too
+			ownerCache[fd] = chain // cut cycles
+			first := ownerChain(p, callers[0])
+			var common []string
+			for i, k := range first {
+				inAll := true
+				for _, g := range callers[1:] {
+					found := false
+					for _, k2 := range ownerChain(p, g) {
+						if k2 == k {
+							found = true
+						}
+					}
+					inAll = inAll && found
+				}
+				if inAll {
+					common = first[i:]
+					break
+				}
+			}
+			chain = append(chain, common...)
+			break
+		}
+		if genDeclRef {
 			break
 		}
 		cur = caller
@@ -655,4 +736,181 @@ func familyOf(p *packages.Package, fd *ast.FuncDecl) []*ast.FuncDecl {
 		}
 	}
 	return out
+}
+
+// inlineHelpers returns a copy of fd in which top-level statements of the forms
+//
+//	x := g(args)   x = g(args)   if x := g(args); cond {..}   return g(args)
+//
+// with g a function or method of the same package that want() accepts and whose only return statement is
+// its last statement, are replaced by g's body spliced in: receiver and parameters bound by synthetic
+// definitions, the body, and the returned expression assigned to x. Identifiers resolve through the
+// type-checker's objects, not through names, so no renaming is needed; the synthetic identifiers are
+// entered into info.Defs/Uses. A rule that reads the shape of fd's top-level statement list thereby sees
+// the same list whether a stretch of it was extracted into a helper or not.
+func inlineHelpers(p *packages.Package, fd *ast.FuncDecl, want func(g *ast.FuncDecl) bool) *ast.FuncDecl {
+	info := p.TypesInfo
+	funcs := pkgFuncs(p)
+	helperOf := func(e ast.Expr) (*ast.CallExpr, *ast.FuncDecl) {
+		call, ok := ast.Unparen(e).(*ast.CallExpr)
+		if !ok || call.Ellipsis.IsValid() {
+			return nil, nil
+		}
+		fn := calleeFunc(info, call)
+		if fn == nil {
+			return nil, nil
+		}
+		g := funcs[fn]
+		if g == nil || g == fd || g.Body == nil || len(g.Body.List) == 0 || !want(g) {
+			return nil, nil
+		}
+		if g.Type.Results == nil || g.Type.Results.NumFields() != 1 || g.Type.Params.NumFields() != len(call.Args) {
+			return nil, nil
+		}
+		last, ok := g.Body.List[len(g.Body.List)-1].(*ast.ReturnStmt)
+		if !ok || len(last.Results) != 1 {
+			return nil, nil
+		}
+		nRet := 0
+		ast.Inspect(g.Body, func(n ast.Node) bool {
+			switch n.(type) {
+			case *ast.ReturnStmt:
+				nRet++
+			case *ast.FuncLit:
+				return false
+			}
+			return true
+		})
+		if nRet != 1 {
+			return nil, nil
+		}
+		for _, f := range g.Type.Params.List {
+			if _, variadic := f.Type.(*ast.Ellipsis); variadic || len(f.Names) == 0 {
+				return nil, nil
+			}
+		}
+		return call, g
+	}
+	define := func(obj types.Object, val ast.Expr, pos token.Pos) ast.Stmt {
+		id := &ast.Ident{NamePos: pos, Name: obj.Name()}
+		info.Defs[id] = obj
+		return &ast.AssignStmt{Lhs: []ast.Expr{id}, TokPos: pos, Tok: token.DEFINE, Rhs: []ast.Expr{val}}
+	}
+	splice := func(call *ast.CallExpr, g *ast.FuncDecl) (pre []ast.Stmt, result ast.Expr, ok bool) {
+		if g.Recv != nil && len(g.Recv.List) == 1 && len(g.Recv.List[0].Names) == 1 {
+			sel, isSel := ast.Unparen(call.Fun).(*ast.SelectorExpr)
+			if !isSel {
+				return nil, nil, false
+			}
+			if obj := info.Defs[g.Recv.List[0].Names[0]]; obj != nil {
+				pre = append(pre, define(obj, sel.X, call.Pos()))
+			}
+		}
+		i := 0
+		for _, f := range g.Type.Params.List {
+			for _, n := range f.Names {
+				if obj := info.Defs[n]; obj != nil && n.Name != "_" {
+					pre = append(pre, define(obj, call.Args[i], call.Pos()))
+				}
+				i++
+			}
+		}
+		pre = append(pre, g.Body.List[:len(g.Body.List)-1]...)
+		return pre, g.Body.List[len(g.Body.List)-1].(*ast.ReturnStmt).Results[0], true
+	}
+	changed := false
+	var out []ast.Stmt
+	for _, s := range fd.Body.List {
+		switch x := s.(type) {
+		case *ast.AssignStmt:
+			if len(x.Lhs) == 1 && len(x.Rhs) == 1 {
+				if call, g := helperOf(x.Rhs[0]); g != nil {
+					if pre, res, ok := splice(call, g); ok {
+						out = append(out, pre...)
+						cp := *x
+						cp.Rhs = []ast.Expr{res}
+						out = append(out, &cp)
+						changed = true
+						continue
+					}
+				}
+			}
+		case *ast.IfStmt:
+			if as, ok := x.Init.(*ast.AssignStmt); ok && len(as.Lhs) == 1 && len(as.Rhs) == 1 {
+				if call, g := helperOf(as.Rhs[0]); g != nil {
+					if pre, res, ok := splice(call, g); ok {
+						out = append(out, pre...)
+						cp := *as
+						cp.Rhs = []ast.Expr{res}
+						out = append(out, &cp)
+						ifc := *x
+						ifc.Init = nil
+						out = append(out, &ifc)
+						changed = true
+						continue
+					}
+				}
+			}
+		case *ast.ReturnStmt:
+			if len(x.Results) == 1 {
+				if call, g := helperOf(x.Results[0]); g != nil {
+					if pre, res, ok := splice(call, g); ok {
+						out = append(out, pre...)
+						cp := *x
+						cp.Results = []ast.Expr{res}
+						out = append(out, &cp)
+						changed = true
+						continue
+					}
+				}
+			}
+		}
+		out = append(out, s)
+	}
+	if !changed {
+		return fd
+	}
+	cp := *fd
+	cp.Body = &ast.BlockStmt{Lbrace: fd.Body.Lbrace, List: out, Rbrace: fd.Body.Rbrace}
+	return &cp
+}
+
+// inspectWithHelpers walks fd's body and, through calls, the bodies of the same-package functions it calls
+// (bounded depth, no recursion), handing every node to visit together with a canonical printer in which the
+// callee's receiver and parameters print as the caller's canonical argument expressions: a rule that
+// looks for a construct "in fd" and reads its operands in terms of fd's parameters sees the same thing
+// whether the construct sits in fd or in a helper it was extracted into.
+func inspectWithHelpers(p *packages.Package, fd *ast.FuncDecl, fc *fcanon, depth int, visit func(fc *fcanon, g *ast.FuncDecl, n ast.Node) bool) {
+	info := p.TypesInfo
+	funcs := pkgFuncs(p)
+	var stack []*ast.FuncDecl
+	var rec func(g *ast.FuncDecl, gc *fcanon, d int)
+	rec = func(g *ast.FuncDecl, gc *fcanon, d int) {
+		stack = append(stack, g)
+		ast.Inspect(g.Body, func(n ast.Node) bool {
+			if n == nil {
+				return true
+			}
+			if !visit(gc, g, n) {
+				return false
+			}
+			if call, ok := n.(*ast.CallExpr); ok && d < depth {
+				if fn := calleeFunc(info, call); fn != nil {
+					if h := funcs[fn]; h != nil && h.Body != nil {
+						for _, s := range stack {
+							if s == h {
+								return true
+							}
+						}
+						if hc := calleeCanon(info, gc, call, h); hc != nil {
+							rec(h, hc, d+1)
+						}
+					}
+				}
+			}
+			return true
+		})
+		stack = stack[:len(stack)-1]
+	}
+	rec(fd, fc, 0)
 }
